@@ -189,7 +189,7 @@ func checkC19(c *Ctx) {
 				c.Bad("R19.1", name, "closer-visits-all", mk.Pos(), "closer closure does not call Close")
 			} else {
 				ok, over, why := LoopVisitsAll(mk.Fn.(*ssa.Function), closeCall)
-				c.Check(ok && over == "closers", "R19.1", name, "closer-visits-all", closeCall.Pos(), "closer ranges over all recorded closers (%s) with no early exit %s", over, why)
+				c.Check(ok && over == mk.Fn.(*ssa.Function).FreeVars[0].Name(), "R19.1", name, "closer-visits-all", closeCall.Pos(), "closer ranges over all recorded closers (%s) with no early exit %s", over, why)
 			}
 			// loop over all paths, no early exit
 			ok, over, why := LoopVisitsAll(open, newSink)
